@@ -23,6 +23,7 @@ from sa.pyfront import Program
 from sa.symex import Interp
 
 RULES = {
+    "R-C05-e": "every index-cube grand total is the all-rows instance of its per-cell value (per fact column), so the cell reconstructed at the common coordinate does not depend on which category is common",
     "R-C05-a": "differencing writes at dim.common of the dimension whose axis is being differenced",
     "R-C05-b": "corner (grand total) values carry no dependence on any dimension's encoding",
     "R-C05-c": "no coordinate is compared with an integer literal other than -1; .common is not read by walk / fill / reduce",
@@ -172,6 +173,14 @@ def main(tier):
     rule_b(prog, rep)
     rule_c(prog, rep)
     rule_d(prog, rep)
+    # R-C05-e: the reconstructed common cell is corner - (sum of the uncommon cells); it holds that cell's own
+    # contribution, whichever category happens to be common, only if the corner is the all-rows instance
+    # of what the cells hold (column by column for several fact columns)
+    C = AT.Collector()
+    n = AT.rule_corner_cell(prog, C, "R-C05-e")
+    for rule, status, where, cons, detail, wit in C.items:
+        rep.add(rule, where, cons, status, detail, True, wit)
+    rep.floor("R-C05-e", 30, n)
     return rep.finish()
 
 
